@@ -301,7 +301,10 @@ def _finish_executor_rules(ck, prog, pm):
             n_res = 0
             for t in pm.run_cell(ci, st2, faults=False):
                 evs = t.events
-                first_eff = next((i for i, e in enumerate(evs) if e.kind == "USER" and e in user_events(t, "user")), None)
+                # "that operation's user function": the function the operation wraps, and the user's retry / wait strategy of the operation
+                # (h2_C10 #2: the strategy of an interrupted at-most-once step ran in an orphaned branch)
+                own_fn = user_events(t, "user") + user_events(t, "strategy")
+                first_eff = next((i for i, e in enumerate(evs) if e.kind == "USER" and any(e is u for u in own_fn)), None)
                 if first_eff is None:
                     continue
                 n_res += 1
@@ -316,6 +319,33 @@ def _finish_executor_rules(ck, prog, pm):
             if n_res:
                 ck.ob("R6.resumed-operation-checks-first", cls_construct(ci), not badr, (badr[0][0] + ": " + trace_sig(badr[0][1])) if badr else "", cell=st2)
     ck.floor("first_time_user_entries", n_first, 3)
+
+    # R8: "a still-running orphaned branch is stopped at its NEXT durable operation" - also when that operation is answered from its record
+    # (re-invocation: the surviving branch traverses operations an earlier invocation completed while a sibling completes the map/parallel).
+    # Judged on the executor table: a terminal cell that delivers the recorded outcome without a checkpoint and without a query of the orphan state
+    # lets the branch go on into the user code that follows the call (h2_C10 #1). One obligation for the common entry point.
+    from sa.common import applicable_cells as _ac2, terminal_statuses as _ts
+    term = _ts(prog)
+    unasked, n_tc = [], 0
+    for name2, ci2, ot2, st2 in _ac2(pm):
+        if st2 not in term:
+            continue
+        for t in pm.run_cell(ci2, st2, faults=False):
+            if t.outcome not in ("return", "raise") or user_events(t, "user"):
+                continue
+            n_tc += 1
+            if not any(e.kind in ("ORPHANCHECK", "CKPT") for e in t.events):
+                unasked.append(f"{ci2.name}[{st2}]")
+    ck.analysed["terminal_cells_answered_from_record"] = n_tc
+    ck.floor("terminal_cells_answered_from_record", n_tc, 10)
+    pr = prog.cls("operation.base", "OperationExecutor").methods.get("process")
+    if pr is None:
+        raise AnalysisError("OperationExecutor.process not found")
+    ck.ob("R8.recorded-outcome-stops-an-orphan-too", fn_construct(pr), not unasked,
+          (f"{len(set(unasked))} terminal cells deliver the recorded outcome without asking the orphan state ({', '.join(sorted(set(unasked))[:6])} ...): in a "
+           "re-invocation a surviving branch whose parent map/parallel is handed its completion record while the branch traverses operations recorded by an "
+           "earlier invocation is not stopped at its next durable operation; the user code that follows each answered call runs until the branch reaches an "
+           "operation that is not terminal") if unasked else "", cell="terminal")
 
     # who may catch the orphan exception
     n_h = 0
